@@ -150,6 +150,31 @@ def handle (s : St) (line : String) : St × String :=
         | some x, some y => cmpS x y
         | _, _ => "err parse")
     | _, _ => (s, "bad-op")
+  | ["fblacklist", id] =>
+    -- `File.Blacklist` on the file handed out last for `id`: `Resource.Blacklist` of the active version
+    match tok id with
+    | some i =>
+      match (s.get i).bind (·.active) with
+      | some v => let (s', o) := step s (.blacklist i v.str); (s', outS o)
+      | none => (s, "err nofile")
+    | none => (s, "bad-op")
+  | ["unpack", id] =>
+    -- `File.Unpack` (suffix = the extension) of the file handed out last: the unpacked copy of the active version appears
+    match tok id with
+    | some i =>
+      match (s.get i).bind (·.active) with
+      | some v =>
+        if hasExt (getVersionedPath i v.str) then
+          ((step s (.touch i v.str 2)).1, "unpacked " ++ ascii (filePath i (v, 2)))
+        else (s, "err noext")
+      | none => (s, "err nofile")
+    | none => (s, "bad-op")
+  | ["anyavail", id] =>
+    match tok id with
+    | some i => (s, match s.get i with
+        | some r => if r.versions.any (·.avail) then "avail true" else "avail false"
+        | none => "err notfound")
+    | none => (s, "bad-op")
   | _ =>
     match parseOp ws with
     | some op => let (s', o) := step s op; (s', outS o)
